@@ -39,6 +39,19 @@ CHECKS = {
         technique="TLA+ spec (ModelLogProb + LieselGraph) + TLC over all small programs + trace validation (symbolic multisets, numeric leaves)",
         ref="DESIGN.md section 5, C02",
     ),
+    "C03": dict(
+        text="GooseInterface.tla (on top of LieselGraph) defines update_state as coded (load the whole state into the private "
+             "copy, clear flags, assign entry by entry, full update) and the reference 'direct assignment + full update on a "
+             "scratch copy'; TLC checks Pure and GetPut for every DAG on 3 nodes, every up-to-date input state, every "
+             "position, every residue of the private copy and both auto-update settings. Real LieselInterface objects over "
+             "random symbolic models are driven through call histories (positions by node or variable name, states from "
+             "earlier returns, the same state object passed twice, user's model mutated in between); every result is "
+             "validated against the spec's reference, a fresh interface and direct assignment; TFP models eager/jit/vmap; "
+             "dict / dataclass (init=False field) / named-tuple interfaces: put/get and non-mutation laws.",
+        note="Input states are up to date (as the interface documents); eager vs jit vs vmap compared with rtol/atol 2e-5. " + TRUST,
+        technique="TLA+ spec (GooseInterface) + TLC over all small graphs/states/residues + trace validation of real interface call histories",
+        ref="DESIGN.md section 5, C03",
+    ),
     "C05": dict(
         text="The decision rule is a TLA+ operator over IEEE doubles (VFloat); TLC enumerates every "
              "(current, proposed, correction, u) over a grid containing +-inf, NaN and the boundary draw u = 0 and "
